@@ -1627,6 +1627,9 @@ def _s_cif_objects(draw):
         "bad_col": draw(st.sampled_from(["none", "none", "2d", "length"])),
         "save_as": draw(st.sampled_from(["block", "list", "tuple"])),
         "file_comment": draw(st.sampled_from(["", "file comment"])),
+        # form of the content argument of Block (seeded/C09-s6: a list that needs no conversion)
+        "content_form": draw(st.sampled_from(["mixed-list", "objects-list", "objects-list", "objects-tuple",
+                                              "empty-list"])),
     }
 
 
@@ -1683,7 +1686,10 @@ def _r_cif_objects(a, W):
     W.call(_CF + "Loop.schema", lambda: loop.schema, watch={"self": loop, **mine})
     W.call(_CF + "Loop.write", loop.write, io.StringIO(), out=(0,), watch={"self": loop, **mine})
     # block
-    content = [chunk, {"d.x": "from dict", "d.y": sc.scalar(3, unit="K")}, loop]
+    form = a.get("content_form", "mixed-list")
+    content = {"mixed-list": lambda: [chunk, {"d.x": "from dict", "d.y": sc.scalar(3, unit="K")}, loop],
+               "objects-list": lambda: [chunk, loop], "objects-tuple": lambda: (chunk, loop),
+               "empty-list": list}[form]()
     mine["content"] = content
     bad_name = (ValueError,) if " " in a["block_name"] else ()
     block = W.call(_CF + "Block", cif.Block, a["block_name"], content, comment=a["comment"],
